@@ -271,7 +271,7 @@ func (e *Exec) pickSid(r *rand.Rand) int {
 
 func (e *Exec) genField(r *rand.Rand) int {
 	if pct(r, 3) {
-		return []int{99, 98, 97}[r.Intn(3)]
+		return []int{99, 98}[r.Intn(2)]
 	}
 	// prefer indexed fields half of the time
 	if pct(r, 50) {
